@@ -114,7 +114,7 @@ def eff_deps(T, t):
 
 # ---------------------------------------------------------------------------------------------- one-shot scenario
 
-def oneshot(rng, T, roots, fail=(), gated=True, tag='os', cap=None, hang_s=None, with_inputs=True, second_run=True, pre_args=()):
+def oneshot(rng, T, roots, fail=(), gated=True, tag='os', cap=None, hang_s=None, with_inputs=True, second_run=True, pre_args=(), hold_s=0.0):
     """Runs `zinoma <roots>` once. Returns (obs, verdicts): verdicts = {property_id: [text, ...]} for violated properties."""
     d = vf.scratch_dir(tag)
     spec = {}
@@ -150,7 +150,7 @@ def oneshot(rng, T, roots, fail=(), gated=True, tag='os', cap=None, hang_s=None,
 
     try:
         if gated:
-            outcome = blackbox.drive_to_end(run, rng, fail=fail, hang_s=hang_s)
+            outcome = blackbox.drive_to_end(run, rng, fail=fail, hang_s=hang_s, hold_s=hold_s)
         else:
             outcome = 'exited' if run.wait_exit(hang_s or blackbox.HANG_S) else ('alive-idle' if run.idle_for(1.0) else 'hung')
         tr = run.trace()
@@ -489,7 +489,7 @@ def service_scenario(rng, T, roots, tag='sv'):
 
 # ---------------------------------------------------------------------------------------------- aggregate = its dependencies (C20)
 
-def aggregate_pair(rng, T, G, fail=(), tag='ag'):
+def aggregate_pair(rng, T, G, fail=(), tag='ag', hold_s=0.0):
     """Metamorphic pair on one graph: request the aggregate G vs request its dependencies."""
     res = []
     for roots in ([G], list(dict.fromkeys(T[G]['deps']))):
@@ -498,7 +498,7 @@ def aggregate_pair(rng, T, G, fail=(), tag='ag'):
             res.append({'started': set(), 'exit_code': 0, 'outcome': 'exited', 'keepalive': False, 'roots': []})
             continue
         r = __import__('random').Random(rng.getrandbits(32))
-        obs, V = oneshot(r, T, roots, fail=fail, gated=True, tag=tag, hang_s=2.0)
+        obs, V = oneshot(r, T, roots, fail=fail, gated=True, tag=tag, hang_s=2.0, hold_s=hold_s, second_run=False)
         started = {t for k, t, _ in obs['trace'] if k == 'start'}
         res.append({'started': started, 'exit_code': obs['exit_code'] if obs['outcome'] == 'exited' else None,
                     'outcome': obs['outcome'], 'keepalive': obs['outcome'] != 'exited', 'roots': roots, 'V': V,
